@@ -160,14 +160,8 @@ LayoutAccept(r) ==
 -----------------------------------------------------------------------------
 (* pool vectors *)
 
-RenH(h) == [h EXCEPT !.owner = "renamed/" \o @, !.name = "r_" \o @]
-RenConst(c) == IF HasF(c, "class") THEN [class |-> "renamed/" \o c.class] ELSE c
-RenClassNeed(puts) ==
-    {<<"Utf8", "renamed/gen/Pool">>, <<"Class", "renamed/gen/Pool">>, <<"Utf8", "renamed/java/lang/Object">>,
-     <<"Class", "renamed/java/lang/Object">>, <<"Utf8", "r_m">>, <<"Utf8", "()V">>, <<"Utf8", "Code">>}
-    \cup UNION {NeedOf(RenConst(puts[i])) : i \in DOMAIN puts}
-PoolFits(r) == IF HasF(r, "ren") /\ r.ren THEN 1 + 2 * r.pre + SumSlots(RenClassNeed(r.puts)) <= PoolMax
-               ELSE Representable(r.pre, r.puts)
+IsRen(r) == HasF(r, "ren") /\ r.ren
+PoolFits(r) == Representable(OutNames(IsRen(r)), r.pre, OutPuts(IsRen(r), r.puts))
 
 PoolAccept(r) ==
     LET g == r.got IN
